@@ -124,8 +124,22 @@ pub fn convert_cntrl_flow(
 }
 
 fn is_valid_in_ternary(then: &ASTTy, el: &ASTTy) -> bool {
-    !matches!(then.node, NodeTy::Block { .. } | NodeTy::Raise { .. })
-        && !matches!(el.node, NodeTy::Block { .. } | NodeTy::Raise { .. })
+    is_valid_ternary_branch(then) && is_valid_ternary_branch(el)
+}
+
+/// A branch of a conditional expression is an expression itself: not a block, raise, match or
+/// handle, and if it is an if then one which is a conditional expression in turn.
+fn is_valid_ternary_branch(branch: &ASTTy) -> bool {
+    match &branch.node {
+        NodeTy::Block { .. }
+        | NodeTy::Raise { .. }
+        | NodeTy::Match { .. }
+        | NodeTy::Handle { .. } => false,
+        NodeTy::IfElse { then, el, .. } => {
+            el.as_ref().map_or(false, |el| is_valid_in_ternary(then, el))
+        }
+        _ => true,
+    }
 }
 
 /// True if Python accepts core as pattern of a case.
